@@ -164,7 +164,28 @@ def build(case):
     roots = []
     for number in range(rng.randint(1, 2)):
         roots.append({'name': 'r%d' % number, 'steps': [random_block(rng, ids, 0)]})
-    return {'objects': {}, 'roots': roots, 'start': rng.choice([0, 0, 0, -1, -0.5]),
+    objects = {}
+    if rng.random() < 0.3:
+        # the body of the outermost block sits inside a block of a primitive - a lock somebody
+        # else is queued for, borrowed resources somebody else waits for - when it is aborted:
+        # whatever leaves the scope's body passes through that block unchanged (the hand-over
+        # to the one who waits is none of the scope's business)
+        objects = {'locks': len(roots), 'resources': [
+            {'kind': 'resources', 'levels': {'a': 2}} for _ in roots]}
+        for number, root in enumerate(list(roots)):
+            block = root['steps'][0]
+            if rng.random() < 0.5:
+                block['body'] = [{'op': 'lock', 'l': number, 'id': ids('s'), 'body': block['body']}]
+                wanted = {'op': 'lock', 'l': number, 'id': ids('s'), 'body': [
+                    {'op': 'wait', 'n': {'k': 'delay', 'd': 0.5}, 'id': ids('s')}]}
+            else:
+                block['body'] = [{'op': 'borrow', 'r': number, 'amounts': {'a': 2}, 'id': ids('s'),
+                                  'body': block['body']}]
+                wanted = {'op': 'borrow', 'r': number, 'amounts': {'a': 1}, 'id': ids('s'), 'body': [
+                    {'op': 'wait', 'n': {'k': 'delay', 'd': 0.5}, 'id': ids('s')}]}
+            roots.append({'name': 'q%d' % number, 'steps': [
+                {'op': 'wait', 'n': {'k': 'delay', 'd': 0.25}, 'id': ids('s')}, wanted]})
+    return {'objects': objects, 'roots': roots, 'start': rng.choice([0, 0, 0, -1, -0.5]),
             'till': None}, rng
 
 
